@@ -372,6 +372,37 @@ func TestVerifC25(t *testing.T) {
 		c.Max("max_argv_len", len(k.Argv))
 	}
 
+	// helpInValue: the vector starts with the path of the command it was built
+	// around, carries -h/--help directly after a separately spelled value-taking
+	// option before any `--`, and at least the required number of positionals
+	// before the `--`: if the parser swallowed the help flag as the option's
+	// value, nothing else would stop the dispatch.
+	helpValPerCmd := map[string]int{}
+	helpValOutcome := map[string]int{}
+	helpInValue := func(k *c25Case) bool {
+		if k.For == nil || len(k.Argv) < len(k.For.Path) {
+			return false
+		}
+		for i, n := range k.For.Path {
+			if k.Argv[i] != n {
+				return false
+			}
+		}
+		npos, inVal := 0, false
+		for i, a := range k.Argv {
+			if a == "--" {
+				break
+			}
+			if strings.HasPrefix(k.Shape[i], "pos:") {
+				npos++
+			}
+			if i > 0 && (a == "-h" || a == "--help") && (strings.HasSuffix(k.Shape[i-1], "_") || k.Shape[i-1] == "cluster+val") {
+				inVal = true
+			}
+		}
+		return inVal && npos >= k.For.minPos()
+	}
+
 	idx := 0
 	runCase := func(k *c25Case, nNonRoot int, r interface{ Intn(int) int }) {
 		defer func() { idx++ }()
@@ -379,8 +410,19 @@ func TestVerifC25(t *testing.T) {
 			return
 		}
 		feat(k)
+		hv := helpInValue(k)
+		if hv {
+			c.Count("argv_help_in_separate_value_position_with_complete_positionals", 1)
+			helpValPerCmd[k.For.name()]++
+			if !c25Allowed[k.For.top()] {
+				c.Count("argv_help_in_separate_value_position_with_complete_positionals_root_only_command", 1)
+			}
+		}
 		ro := c25Run(k.Argv, 0)
 		judge(idx, k, 0, ro)
+		if hv {
+			helpValOutcome["root:"+outcomeClass(ro)]++
+		}
 		var lastNR c25Outcome
 		for j := 0; j < nNonRoot; j++ {
 			uid := c25NonRootUids[(idx+j*3)%len(c25NonRootUids)]
@@ -390,6 +432,16 @@ func TestVerifC25(t *testing.T) {
 			o := c25Run(k.Argv, uid)
 			judge(idx, k, uid, o)
 			lastNR = o
+			if hv {
+				w := "nonroot-denied-command:"
+				if c25Allowed[k.For.top()] {
+					w = "nonroot-allowed-command:"
+				}
+				helpValOutcome[w+outcomeClass(o)]++
+				if o.ErrClass != "forbidden" {
+					c.Count("nonroot_help_in_value_position_vectors_past_the_gate", 1)
+				}
+			}
 			// monitor sanity, not a clause: for an allowed first argument the gate is
 			// transparent, root and non-root must see the same outcome
 			if len(k.Argv) > 0 && c25Allowed[k.Argv[0]] {
@@ -444,6 +496,8 @@ func TestVerifC25(t *testing.T) {
 	}
 	sort.Strings(rootExec)
 	sort.Strings(nonRootExec)
+	c.Note("help_in_separate_value_position_with_complete_positionals_per_command", sortedCounts(helpValPerCmd))
+	c.Note("help_in_separate_value_position_outcomes", sortedCounts(helpValOutcome))
 	c.Note("commands_seen_executing_as_root", rootExec)
 	c.Note("commands_seen_executing_as_nonroot", nonRootExec)
 	c.Max("max_distinct_commands_executed_by_root", len(rootExec))
@@ -469,10 +523,39 @@ func TestVerifC25(t *testing.T) {
 		c.Floor("root_wellformed_cases", 2000)
 		c.Floor("argv_with_help_flag_and_terminator", 100)
 		c.Floor("argv_help_flag_in_option_value_position", 20)
+		// every command with a value-taking option must have been attacked with a
+		// help flag in that option's value position and complete positionals
+		var unattacked []string
+		for _, l := range sf.Leaves {
+			if len(c25ValueOpts(l)) > 0 && helpValPerCmd[l.name()] == 0 {
+				unattacked = append(unattacked, l.name())
+			}
+		}
+		if len(unattacked) > 0 && nshard == 1 && c.Violations() == 0 {
+			c.Inconclusive("commands with value-taking options never given a help flag as a separate option value with complete positionals: " + strings.Join(unattacked, ", "))
+		}
+		c.Floor("argv_help_in_separate_value_position_with_complete_positionals", 300)
+		c.Floor("nonroot_help_in_value_position_vectors_past_the_gate", 300)
 		c.MinDistinct(2000)
 	} else {
 		c.MinDistinct(0)
 	}
+}
+
+func outcomeClass(o c25Outcome) string {
+	if len(o.Events) > 0 {
+		return "executed"
+	}
+	return o.ErrClass
+}
+
+func sortedCounts(m map[string]int) []string {
+	var out []string
+	for k, n := range m {
+		out = append(out, fmt.Sprintf("%s=%d", k, n))
+	}
+	sort.Strings(out)
+	return out
 }
 
 func evNames(o c25Outcome) []string {
